@@ -115,6 +115,8 @@ class Revision(typing.TypedDict):
     number: int
     _etag: typing.NotRequired[str]
 Row = collections.namedtuple("Row", ["class", "value"], rename=True)      # fields _0, value
+class Blob(bytes):
+    pass
 class TypedRow(typing.NamedTuple):
     key: str
     row: Row
@@ -140,7 +142,11 @@ SEQ_CASES = [("typing.Union[uuid.UUID, str]", [U1, "'hello'", U2, "'x'", U1]),
              # instances of a str subclass are valid members of str: as mapping keys (the default encoder takes exact str keys only),
              # as values, as a field
              ("typing.Dict[str, int]", ["{S('apples'): 1, 'pears': 2}", "{S(''): 0}"]), ("typing.List[str]", ["[S('a'), 'b']"]),
-             ("Inventory", ["Inventory(S('shed'), {S('apples'): 1})"]), ("typing.Dict[str, typing.Dict[str, str]]", ["{S('o'): {S('i'): S('v')}}"])]
+             ("Inventory", ["Inventory(S('shed'), {S('apples'): 1})"]), ("typing.Dict[str, typing.Dict[str, str]]", ["{S('o'): {S('i'): S('v')}}"]),
+             # bytes-like roots are carried verbatim -- by every entry point alike, whatever the bytes-like class
+             ("bytes", ["b'abc'", "b''", "b'\"abc\"'"]), ("bytearray", ["bytearray(b'abc')", "bytearray()"]),
+             ("memoryview", ["memoryview(b'abc')"]), ("Blob", ["Blob(b'xyz')", "Blob()"])]
+BYTES_ROOTS = ("bytes", "bytearray", "memoryview", "Blob")
 
 
 def _seq_child(case):
@@ -159,8 +165,23 @@ def _seq_child(case):
     bad = []
     for dec_name, enc_f, dec_f in (("default", None, None), ("stdlib", lambda o: _json.dumps(o).encode(), _json.loads)):
         c = typelib.codec(t) if enc_f is None else typelib.codec(t, encoder=enc_f, decoder=dec_f)
+        kw = {} if enc_f is None else {"encoder": enc_f}
+        dkw = {} if dec_f is None else {"decoder": dec_f}
         for i, src in enumerate(case[1]):
             v = eval(src, ns)
+            if case[0] in BYTES_ROOTS:
+                try:
+                    wires = {"Codec.encode": c.encode(v), "typelib.encode": typelib.encode(v, t=t, **kw), "marshal": typelib.marshal(v, t=t)}
+                    shown = {k: (type(w).__name__, bytes(w)) for k, w in wires.items()}
+                    if len(set(shown.values())) != 1:
+                        bad.append(f"[{dec_name}] the entry points carry {src} differently: {shown}"[:300])
+                    backs = {"Codec": c.decode(c.encode(v)), "typelib": typelib.decode(t, typelib.encode(v, t=t, **kw), **dkw)}
+                    for k, b_ in backs.items():
+                        if type(b_) is not type(v) or bytes(b_) != bytes(v):
+                            bad.append(f"[{dec_name}] {k}: decode(encode({src})) is {type(b_).__name__} {bytes(b_)!r}"[:300])
+                except Exception as e:  # noqa: BLE001
+                    bad.append(f"[{dec_name}] bytes-like root {src}: raised {type(e).__name__}: {e}"[:200])
+                continue
             try:
                 wire = c.encode(v)
                 back = c.decode(wire)
